@@ -497,6 +497,54 @@ def n1(facts, tier):
         return
 
 
+def nego_fns(facts):
+    """analyze_and_create, the closures written in it, and the private free helper functions of savefile_abi it calls (transitively):
+    moving a block of the negotiation into a helper keeps it in scope"""
+    roots = [f for fid, f in facts.fns.items() if f["crate"] == "savefile_abi" and "analyze_and_create" in fid and f.get("body")]
+    out = {f["id"]: f for f in roots}
+    stack = list(roots)
+    while stack:
+        g = stack.pop()
+        for x in walk(g["body"]):
+            t = None
+            if x.get("k") == "Call":
+                t = (x.get("res") or {}).get("fn") or x.get("fn")
+            elif x.get("k") == "Closure":
+                t = x.get("id")
+            h = facts.fns.get(t) if t else None
+            if h is None or h["id"] in out or h["crate"] != "savefile_abi" or not h.get("body"):
+                continue
+            if (h.get("impl") or {}).get("trait") or h["id"] == "savefile_abi::arg_layout_compatible" or h.get("pub"):
+                continue
+            if h.get("kind") != "Closure" and h.get("impl"):
+                continue          # methods of AbiConnection etc. are not negotiation helpers
+            out[h["id"]] = h
+            stack.append(h)
+    return list(out.values())
+
+
+def is_alc_result(facts, n, depth=0):
+    """is the expression the answer of arg_layout_compatible - directly, through `?`, or as the tail of a local helper?"""
+    n = peel_block(peel(n)) if isinstance(n, dict) else None
+    if n is None or depth > 4:
+        return False
+    if n.get("k") == "Try":
+        return is_alc_result(facts, n["e"], depth)
+    if n.get("k") == "Adt" and n.get("variant") == "Ok" and n.get("fields"):
+        return is_alc_result(facts, n["fields"][0]["e"], depth)
+    if n.get("k") != "Call":
+        return False
+    if callee(n) == "savefile_abi::arg_layout_compatible":
+        return True
+    h = facts.fns.get((n.get("res") or {}).get("fn") or n.get("fn"))
+    if h is not None and h["crate"] == "savefile_abi" and h.get("body") and not (h.get("impl") or {}).get("trait"):
+        t = peel_block(h["body"])
+        while isinstance(t, dict) and t.get("k") == "Block" and t.get("e") is not None:
+            t = peel_block(t["e"])
+        return is_alc_result(facts, t, depth + 1)
+    return False
+
+
 def ancestors(pm, n):
     out = []
     p = pm.get(id(n))
@@ -518,9 +566,8 @@ def let_init_of(f, var):
 def m1(facts, tier):
     from ..flow import parent_map
     sites = 0
-    for fid, f in facts.fns.items():
-        if f["crate"] != "savefile_abi" or "analyze_and_create" not in fid:
-            continue
+    for f in nego_fns(facts):
+        fid = f["id"]
         pm = parent_map(f["body"])
         for x in walk(f["body"]):
             if x.get("k") == "AssignOp" and x.get("op") in ("BitOr", "BitOrAssign") and "mask" in (peel(x["l"]).get("v") or ""):
@@ -533,7 +580,7 @@ def m1(facts, tier):
                         cd = peel_block(c)
                         if cd.get("k") == "Try":
                             cd = peel(cd["e"])
-                        if cd.get("k") == "Call" and callee(cd) == "savefile_abi::arg_layout_compatible":
+                        if is_alc_result(facts, cd):
                             # `if arg_layout_compatible(..)? { mask |= .. }`
                             in_then = any(y is x for y in walk(a["t"]))
                             ok = in_then
@@ -542,9 +589,7 @@ def m1(facts, tier):
                         if c.get("k") == "Var":
                             init = let_init_of(f, c["v"])
                             i = peel_block(peel(init)) if init else None
-                            if i is not None and i.get("k") == "Try":
-                                i = peel(i["e"])
-                            if i is not None and i.get("k") == "Call" and callee(i) == "savefile_abi::arg_layout_compatible":
+                            if i is not None and is_alc_result(facts, i):
                                 # the set happens in the then-branch?
                                 in_then = any(y is x for y in walk(a["t"]))
                                 ok = in_then
@@ -591,7 +636,7 @@ def m2(facts, tier):
       "return value (at the effective version) leads to Err")
 def n5(facts, tier):
     from ..flow import parent_map
-    fs = [f for fid, f in facts.fns.items() if f["crate"] == "savefile_abi" and "analyze_and_create" in fid]
+    fs = nego_fns(facts)
     diffs = 0
     bad = []
     count_cmp = 0
@@ -698,6 +743,17 @@ def trace_root(facts, f, var, depth=0):
     for i, p in enumerate(f["params"]):
         if p.get("pat") and any(b["v"] == var for b in pat_binds(p["pat"])):
             if f.get("kind") != "Closure":
+                # a private free helper of the negotiation: follow the parameter to the arguments of its call sites
+                if not f.get("impl") and not f.get("pub") and f["crate"] == "savefile_abi":
+                    roots = set()
+                    for g in nego_fns(facts):
+                        if g is f:
+                            continue
+                        for x in walk(g["body"]):
+                            if x.get("k") == "Call" and ((x.get("res") or {}).get("fn") or x.get("fn")) == f["id"] and i < len(x["args"]):
+                                roots.add(trace_root(facts, g, base_var(x["args"][i]), depth + 1))
+                    if roots:
+                        return roots.pop() if len(roots) == 1 else "|".join(sorted(str(r) for r in roots))
                 return var.split("#")[0]
             # closure parameter: find the call sites of this closure in the parent
             parent = facts.fns.get(f.get("parent"))
@@ -741,9 +797,8 @@ ROLE = [("caller", "native"), ("callee", "native"), ("caller", "effective"), ("c
       "implementation's native, the caller's effective and the implementation's effective definition, in that order")
 def m4(facts, tier):
     n = 0
-    for fid, f in facts.fns.items():
-        if f["crate"] != "savefile_abi" or "analyze_and_create" not in fid:
-            continue
+    for f in nego_fns(facts):
+        fid = f["id"]
         for x in calls(f["body"]):
             if callee(x) != "savefile_abi::arg_layout_compatible" or len(x["args"]) < 4:
                 continue
